@@ -273,7 +273,22 @@ class Interp:
                     return n
 
             node = A().visit(copy.deepcopy(node))
-        return simplify(subst(node, self.env), self.ctx)
+        out = subst(node, self.env)
+        if self.constructs and any(isinstance(n, ast.Attribute) and isinstance(n.value, ast.Name) and n.value.id in self.constructs for n in ast.walk(out)):
+            # <object built here>.<attr> is what its constructor stored there
+            interp = self
+
+            class B(ast.NodeTransformer):
+                def visit_Attribute(self, n):
+                    self.generic_visit(n)
+                    if isinstance(n.value, ast.Name) and n.value.id in interp.constructs and isinstance(n.ctx, ast.Load):
+                        attrs = interp.ctor_attrs(interp.constructs[n.value.id])
+                        if attrs and n.attr in attrs and not any(isinstance(x, ast.Name) and x.id == n.value.id for x in ast.walk(attrs[n.attr])):
+                            return copy.deepcopy(attrs[n.attr])
+                    return n
+
+            out = B().visit(copy.deepcopy(out))
+        return simplify(out, self.ctx)
 
     def err(self, node, why):
         raise AnalysisError(
